@@ -5,6 +5,7 @@
 //!           -> {"load": {name: "ok"|{"err":k}}, "renders": [{"ok": text}|{"err": k}..]})   or
 //!   item = {"expr": "<expression source>", "ctx": {name: TV}, "prelude": "<template text put before the rendered form>"}   or   {"src": "<template source>", "ctx": {name: TV}}
 //!   TV (typed value, built exactly the way the parser builds the constant of the same literal):
+//!     (optional "rep" on int: "i64"|"u64"|"i128"|"u128" - the width it is held at; on str: "arc"|"safe"|"string" - heap / safe / owned)
 //!     {"t":"int","v":"<decimal>"} | {"t":"float","bits":"<u64>"} | {"t":"str","v":s} | {"t":"bool","v":b} | {"t":"none"}
 //!     | {"t":"list","v":[TV..]} | {"t":"tuple","v":[TV..]} | {"t":"map","v":[[TV,TV]..]}  (maps are built by the VM's BuildMap)
 //! Response: {"items": [res..]}
@@ -33,6 +34,30 @@ fn build(tv: &J) -> Value {
     match tv["t"].as_str().unwrap_or("") {
         "int" => {
             let s = tv["v"].as_str().unwrap_or("0");
+            // "rep": the integer held at a given width (a variable need not carry the parser's choice)
+            match tv.get("rep").and_then(|x| x.as_str()) {
+                Some("i64") => {
+                    if let Ok(i) = s.parse::<i64>() {
+                        return Value::from(i);
+                    }
+                }
+                Some("u64") => {
+                    if let Ok(i) = s.parse::<u64>() {
+                        return Value::from(i);
+                    }
+                }
+                Some("i128") => {
+                    if let Ok(i) = s.parse::<i128>() {
+                        return Value::from(i);
+                    }
+                }
+                Some("u128") => {
+                    if let Ok(i) = s.parse::<u128>() {
+                        return Value::from(i);
+                    }
+                }
+                _ => {}
+            }
             if let Ok(u) = s.parse::<u64>() {
                 Value::from(u) // Token::Int
             } else if let Ok(u) = s.parse::<u128>() {
@@ -44,7 +69,16 @@ fn build(tv: &J) -> Value {
             }
         }
         "float" => Value::from(f64::from_bits(tv["bits"].as_str().unwrap_or("0").parse::<u64>().unwrap_or(0))),
-        "str" => Value::from(tv["v"].as_str().unwrap_or("")),
+        "str" => {
+            // "rep": the same text in another representation (inline small string is what a short literal is)
+            let t = tv["v"].as_str().unwrap_or("");
+            match tv.get("rep").and_then(|x| x.as_str()) {
+                Some("arc") => Value::from(std::sync::Arc::<str>::from(t)),
+                Some("safe") => Value::from_safe_string(t.to_string()),
+                Some("string") => Value::from(t.to_string()),
+                _ => Value::from(t),
+            }
+        }
         "bool" => Value::from(tv["v"].as_bool().unwrap_or(false)),
         "none" => Value::from(()),
         "list" => Value::from(tv["v"].as_array().map(|a| a.iter().map(build).collect::<Vec<Value>>()).unwrap_or_default()),
